@@ -57,6 +57,28 @@ func slicesOf(v reflect.Value, path string, out *[]memRange, seen map[uintptr]bo
 	}
 }
 
+// sharedMemory: do two values reach a common mutable object - the same pointer target or overlapping slice arrays?
+func sharedMemory(a, b interface{}) []string {
+	var ra, rb []memRange
+	sa, sb := map[uintptr]bool{}, map[uintptr]bool{}
+	slicesOf(reflect.ValueOf(a), "", &ra, sa)
+	slicesOf(reflect.ValueOf(b), "", &rb, sb)
+	var hits []string
+	for p := range sa {
+		if sb[p] {
+			hits = append(hits, fmt.Sprintf("pointer %#x", p))
+		}
+	}
+	for _, x := range ra {
+		for _, y := range rb {
+			if x.lo < y.hi && y.lo < x.hi {
+				hits = append(hits, x.path+" ~ "+y.path)
+			}
+		}
+	}
+	return hits
+}
+
 func overlaps(r memRange, b []byte) bool {
 	if cap(b) == 0 {
 		return false
